@@ -129,10 +129,6 @@ func (c *context) SendMsg(m *protocol.Message) error {
 		sock:   s,
 	}
 
-	m.MakeUnique()
-	m.Header = make([]byte, 4)
-	binary.BigEndian.PutUint32(m.Header, newsurv.id)
-
 	s.Lock()
 	if s.closed || c.closed {
 		s.Unlock()
@@ -148,6 +144,12 @@ func (c *context) SendMsg(m *protocol.Message) error {
 		pipes = append(pipes, p)
 	}
 	s.Unlock()
+
+	// We own the message from here on (we cannot fail any more); make sure
+	// nobody else shares it before we rewrite the header.
+	m = m.MakeUnique()
+	m.Header = make([]byte, 4)
+	binary.BigEndian.PutUint32(m.Header, newsurv.id)
 
 	// Best-effort broadcast on all pipes
 	for _, p := range pipes {
